@@ -24,7 +24,8 @@ LEVEL = "other"
 TECHNIQUE = ('symx as case-splitter over (reachable file x damage x position x API) on the real read paths; exhaustive within the finite bound (C parsers and SHA-256 run concretely)')
 EXPLANATION = (
     "symx/z3 exploration of (reachable file x damage class x position) for every read API and option on both real "
-    "backends; each outcome must be an exception or exactly the undamaged answer; exhaustive within the finite "
+    "backends (9 damage classes incl. inverted sixths of a file and a flipped key name in the metadata JSON; errors on the pointer "
+    "read while an uncommitted version is on disk); each outcome must be an exception or exactly the undamaged answer; exhaustive within the finite "
     "bound (solver as case-splitter; C parsers and SHA-256 run concretely).")
 RULE = "one case = one explored (file, damage, position) combination for one API; non-trivial = the solver chose the combination"
 ASSUMPTIONS = [
